@@ -160,6 +160,7 @@ Definition out_ok (fx : fixes) (o : gout) : Prop :=
   | OSent st s t x =>
       InvM s /\ (forall r, In r (s_recs s) -> tshape r) /\ st_wf st /\ x = send_set fx st s t
   | ORefresh st t r => st_wf st /\ r = (if x_udp st then refresh fx st t else Ok [])
+  | OReconn st q => st_wf st
   end.
 
 Lemma nth_OInv k l : Forall OInv l -> OInv (nth k l new_oset).
@@ -171,7 +172,7 @@ Qed.
 
 Lemma gstep_inv w e : WInv w -> WInv (fst (gstep cur w e)) /\ out_ok cur (snd (gstep cur w e)).
 Proof.
-  intros [F W]. destruct e as [obj ops t|t]; cbn [gstep].
+  intros [F W]. destruct e as [obj ops t|t|q]; cbn [gstep].
   - set (p := match obj with
               | None => (with_objs w (w_objs w ++ [new_oset]), length (w_objs w))
               | Some k => (w, k) end).
@@ -196,6 +197,10 @@ Proof.
       unfold refresh. destruct (make_sets _) as [ss| | |]; cbn [obind]; try exact W.
       apply last_state_wf; [exact W|]. now apply send_all_wf.
     + cbn [out_ok]. split; [exact W|reflexivity].
+  - cbn [fst snd]. split; [split|].
+    + exact F.
+    + unfold st_wf. cbn [w_exp x_seq]. now rewrite u32_idem.
+    + exact W.
 Qed.
 
 Theorem grun_inv h : forall w, WInv w -> Forall (out_ok cur) (grun cur w h).
@@ -233,7 +238,7 @@ Proof.
     exists pool', o'. split; [exact E|]. rewrite Eo, Eo1. reflexivity.
 Qed.
 
-Definition sent_of (o : gout) : option sent := match o with OSent _ _ _ x => Some x | ORefresh _ _ _ => None end.
+Definition sent_of (o : gout) : option sent := match o with OSent _ _ _ x => Some x | _ => None end.
 
 Theorem grun_plain fx h : forall w,
   map sent_of (grun fx w (map plain_event h)) = map Some (run_hist fx (w_exp w) h).
